@@ -227,6 +227,14 @@ def main(inp, outp):
         numax = math.acos(-1 / e) * 0.95 if hypo else math.pi
         nu = float(rng.uniform(-numax, numax)) % TWO_PI
         states.append(([a, e, i, float(rng.uniform(0, TWO_PI)), float(rng.uniform(0, TWO_PI)), nu], hypo))
+    # corner of the elliptic domain: high eccentricity, argument of perigee in (pi, 2 pi), small mean anomaly (the mean forms then
+    # carry anomalies beyond 2 pi through the circular forms, where Kepler's equation is hardest for Newton's method)
+    if job.get("nstates", 0):
+        for e_ in (0.85, 0.93, 0.97, 0.985):
+            for w_ in (3.3, 5.9):
+                for m_ in (0.02, 0.1, 0.17, 0.3, 0.6, 1.0, 2.0, 3.0):
+                    k_ = StateVector([2.66e7, e_, 1.1, 0.3, w_, m_], DATE, "keplerian_mean", "EME2000").copy(form="keplerian")
+                    states.append(([float(x) for x in k_], False))
     for wk in job.get("walks", []):
         for kep, hypo in states:
             if hypo and any(f in ELLIPTIC_ONLY for f in wk):
